@@ -347,14 +347,19 @@ def _times(ctx, fi, alts):
         # branches taken only for an empty side list (a crash leftover, outside
         # C15's quantifier) are not constrained
         empty = False
-        for c in pc:
-            t = c[0]
-            if t[0] == "call" and t[1] == "sorted" and c[1] is False:
+        from ..e3 import pc_truth
+        for t, val in pc_truth(pc).items():
+            if t[0] == "call" and t[1] == "sorted" and val is False:
                 empty = True
             if t[0] == "cmp" and t[2][0] == "call" and t[2][1] == "len" and \
-                    t[1] == "==" and t[3] == ("const", 0) and c[1] is True:
+                    t[1] == "==" and t[3] == ("const", 0) and val is True:
                 empty = True
-            if t[0] == "comp" and c[1] is False:
+            if t[0] == "cmp" and t[2][0] == "call" and t[2][1] == "len" and \
+                    t[1] in (">", ">=") and t[3] in (("const", 0), ("const", 1)) and \
+                    val is False and (t[1], t[3][1]) in ((">", 0), (">=", 1)):
+                empty = True
+            if t[0] in ("comp", "param") and val is False and \
+                    (t[0] == "comp" or t[1] == "side_rows"):
                 empty = True
         if empty:
             continue
